@@ -1,6 +1,7 @@
 package props
 
 import (
+	"encoding/json"
 	"fmt"
 	"os"
 )
@@ -27,3 +28,5 @@ func clip(ss []string) []string {
 	}
 	return out
 }
+
+func jsonMarshalIndent(v any) ([]byte, error) { return json.MarshalIndent(v, "", " ") }
